@@ -136,6 +136,13 @@ func runC05(c *core.Ctx) {
 			return e.Ret[0] == core.LocFresh && e.RetIdent[0] == 0
 		}
 	}
+	core.PtrWrapperDecl = func(fo *types.Func) (*ast.FuncDecl, *types.Info) {
+		g := p.FuncOf(fo)
+		if g == nil || !p.InRepo(g) {
+			return nil, nil
+		}
+		return funcDecl(p, g)
+	}
 	pairs := c05pairs(c)
 	c05R3(c, pairs)
 	var keys []string
